@@ -563,5 +563,13 @@ PROPS["C04"]["explanation"] += (" C04_calls_in_order / C04_call_takes_head / C04
     "FrameUnexpected; a queued verdict is reported; an empty queue with the thread gone is EventLoopDropped.")
 PROPS["C04"]["assumptions"] = [a for a in PROPS["C04"]["assumptions"] if "handle side" not in a]
 
+# the return listener is also how C03's "returned messages" reach the caller
+PROPS["C03"]["check_mods"].append("C13l2")
+PROPS["C03"]["drivers"].append({"name": "c13l2", "n_quick": 12, "n_thorough": 240, "timeout": 3000})
+PROPS["C13"]["rule"] += (" Two more kinds: a few confirms / returns that the server sends between the client's "
+    "Channel.Close and its own CloseOk (the listener registered before must still get them). The first eight "
+    "scenarios are fixed points of the space: every kind, the backlogs of 4300 / 4097 / 1500 included.")
+PROPS["C03"]["rule"] += " Returned messages through listen_for_returns: the c13l2 scenarios (see C13)."
+
 # properties not claimed, with the reason (kept current)
 NOT_APPLICABLE = {}
